@@ -88,17 +88,17 @@ Lemma step_other i s o s' : other_op i o -> step s o = Some s' ->
   first_match i (dropped s') = first_match i (dropped s) /\ lookup i (live s') = lookup i (live s).
 Proof.
   destruct o as [n st|n k|n a|n|]; cbn [other_op step]; intros Ho Hs.
-  - destruct (lookup (fst n) (live s)); [discriminate|]. injection Hs as <-. cbn [live dropped].
+  - destruct (lookup (fst n) (live s)); [discriminate|]. injection Hs as <-. cbn [live dropped root].
     split; [reflexivity | apply lookup_put_other; congruence].
-  - destruct (lookup (fst n) (live s)) as [[v d]|]; [|discriminate]. injection Hs as <-. cbn [live dropped].
+  - destruct (lookup (fst n) (live s)) as [[v d]|]; [|discriminate]. injection Hs as <-. cbn [live dropped root].
     split; [reflexivity | apply lookup_put_other; congruence].
-  - destruct Ho as [Hn Ha]. destruct (lookup (fst n) (live s)) as [[v d]|]; [|discriminate]. injection Hs as <-. cbn [live dropped].
+  - destruct Ho as [Hn Ha]. destruct (lookup (fst n) (live s)) as [[v d]|]; [|discriminate]. injection Hs as <-. cbn [live dropped root].
     split.
     + rewrite fm_cons_other by (cbn [fst]; exact Hn). apply fm_rename_other; [cbn [fst]; exact Hn | exact Ha].
     + apply lookup_del_other. congruence.
   - destruct (first_match (fst n) (dropped s)) as [[e d]|] eqn:E; [|discriminate].
     apply fm_In in E as [_ Hc].
-    destruct (lookup (fst e) (live s)); [discriminate|]. injection Hs as <-. cbn [live dropped].
+    destruct (lookup (fst e) (live s)); [discriminate|]. injection Hs as <-. cbn [live dropped root].
     split; [apply fm_remove_other; congruence | apply lookup_put_other; congruence].
   - destruct Ho.
 Qed.
@@ -118,25 +118,28 @@ Qed.
    live database changed — provided no dropped name of the same class sorts before it. *)
 Theorem undrop_restores s n v d a ops n' :
   lookup (fst n) (live s) = Some (v, d) ->
-  first_of_class (fst n, v) (dropped s) -> fst a <> fst n ->
+  let sp := if is_root s (fst n) then snd n else v in        (* the spelling it is held (and comes back) under *)
+  first_of_class (fst n, sp) (dropped s) -> fst a <> fst n ->
   Forall (other_op (fst n)) ops -> fst n' = fst n ->
   exists s1 s3, step s (Drop n a) = Some s1 /\ step (run s1 ops) (Undrop n') = Some s3 /\
-    lookup (fst n) (live s3) = Some (v, d) /\
+    lookup (fst n) (live s3) = Some (sp, d) /\
     forall j, j <> fst n -> lookup j (live s3) = lookup j (live (run s1 ops)).
 Proof.
-  intros Hl Hf Ha Hops Hn'.
-  set (s1 := {| live := del (fst n) (live s); dropped := ((fst n, v), d) :: rename (fst n, v) a (dropped s) |}).
-  assert (Hfm : first_match (fst n) (dropped s1) = Some ((fst n, v), d)).
+  intros Hl sp Hf Ha Hops Hn'.
+  set (s1 := {| live := del (fst n) (live s); dropped := ((fst n, sp), d) :: rename (fst n, sp) a (dropped s);
+                root := if is_root s (fst n) then None else root s |}).
+  assert (Hfm : first_match (fst n) (dropped s1) = Some ((fst n, sp), d)).
   { unfold s1; cbn [dropped first_match fst snd]. rewrite N.eqb_refl.
-    destruct (first_match (fst n) (rename (fst n, v) a (dropped s))) as [[m' d']|] eqn:E; [|reflexivity].
+    destruct (first_match (fst n) (rename (fst n, sp) a (dropped s))) as [[m' d']|] eqn:E; [|reflexivity].
     apply fm_In in E as [Hin Hc]. apply rename_In in Hin as [Hin|Hin].
     - cbn [fst] in Hin. subst m'. contradiction.
     - specialize (Hf m' d' Hin Hc). cbn [snd] in Hf.
-      destruct (snd m' <? v) eqn:El; [apply N.ltb_lt in El; lia | reflexivity]. }
+      destruct (snd m' <? sp) eqn:El; [apply N.ltb_lt in El; lia | reflexivity]. }
   assert (Hlv : lookup (fst n) (live s1) = None) by (unfold s1; cbn [live]; apply lookup_del_same).
   destruct (run_other (fst n) ops Hops s1) as [H1 H2]. rewrite Hfm in H1. rewrite Hlv in H2.
   exists s1.
-  exists {| live := put (fst n) (v, d) (live (run s1 ops)); dropped := remove_exact (fst n, v) (dropped (run s1 ops)) |}.
+  exists {| live := put (fst n) (sp, d) (live (run s1 ops)); dropped := remove_exact (fst n, sp) (dropped (run s1 ops));
+            root := root (run s1 ops) |}.
   split; [cbn [step]; rewrite Hl; reflexivity|].
   split; [cbn [step]; rewrite Hn', H1; cbn [fst snd]; rewrite H2; reflexivity|].
   cbn [live]. split.
@@ -148,14 +151,14 @@ Qed.
    directory that sorts first, undrop brings back THAT database instead *)
 Theorem undrop_restores_refuted :
   exists ops n d a s1 s3,
-    let s := run {| live := [(0, (2, [1000]))]; dropped := [] |} ops in
+    let s := run {| live := [(0, (2, [1000]))]; dropped := []; root := Some 0 |} ops in
     lookup (fst n) (live s) = Some (snd n, d) /\
     step s (Drop n a) = Some s1 /\ step s1 (Undrop n) = Some s3 /\
-    lookup (fst n) (live s3) <> Some (snd n, d).
+    exists v' d', lookup (fst n) (live s3) = Some (v', d') /\ d' <> d.
 Proof.
   exists [Create (1, 1) 1; Mutate (1, 1) 2; Drop (1, 2) (100, 0); Create (1, 2) 4], (1, 2), [4], (101, 0).
   eexists. eexists. cbn zeta. split; [vm_compute; reflexivity|]. split; [vm_compute; reflexivity|].
-  split; [vm_compute; reflexivity|]. vm_compute. discriminate.
+  split; [vm_compute; reflexivity|]. exists 1, [1; 2]. split; [vm_compute; reflexivity | discriminate].
 Qed.
 
 (* ---------------------------------------------------------------- *)
@@ -221,14 +224,14 @@ Qed.
    the backup name, from where dolt_undrop('<backup name>') restores it (as a database
    called <backup name>). *)
 Theorem drop_drop s n v d2 d1 a :
-  lookup (fst n) (live s) = Some (v, d2) ->
+  lookup (fst n) (live s) = Some (v, d2) -> is_root s (fst n) = false ->
   dget (fst n, v) (dropped s) = Some d1 ->
   fresh_class (fst a) s -> fst a <> fst n ->
   exists s1, step s (Drop n a) = Some s1 /\
     In ((fst n, v), d2) (dropped s1) /\ In (a, d1) (dropped s1) /\
     exists s2, step s1 (Undrop a) = Some s2 /\ lookup (fst a) (live s2) = Some (snd a, d1).
 Proof.
-  intros Hl Hg [Hfl Hfd] Ha. cbn [step]. rewrite Hl. eexists. split; [reflexivity|]. cbn [dropped live].
+  intros Hl Hroot Hg [Hfl Hfd] Ha. cbn [step]. rewrite Hl, Hroot. eexists. split; [reflexivity|]. cbn [dropped live].
   destruct (fm_rename_fresh (fst n, v) a (dropped s) d1 Hg Hfd) as [H1 H2].
   split; [left; reflexivity|]. split; [right; exact H2|].
   rewrite fm_cons_other by (cbn [fst]; congruence). rewrite H1.
@@ -238,13 +241,13 @@ Qed.
 
 (* non-vacuity: the hypotheses of undrop_restores and drop_drop are satisfiable *)
 Example undrop_restores_example :
-  let s := run {| live := [(0, (2, [1000]))]; dropped := [] |} [Create (1, 2) 1; Mutate (1, 2) 2; Create (2, 2) 3] in
+  let s := run {| live := [(0, (2, [1000]))]; dropped := []; root := Some 0 |} [Create (1, 2) 1; Mutate (1, 2) 2; Create (2, 2) 3] in
   exists s1 s3, step s (Drop (1, 0) (100, 0)) = Some s1 /\
     step (run s1 [Mutate (2, 2) 5; Drop (2, 2) (101, 0)]) (Undrop (1, 1)) = Some s3 /\
     lookup 1 (live s3) = Some (2, [1; 2]).
 Proof. eexists. eexists. split; [vm_compute; reflexivity|]. split; vm_compute; reflexivity. Qed.
 
 Example drop_drop_example :
-  let s := run {| live := [(0, (2, [1000]))]; dropped := [] |} [Create (1, 2) 1; Drop (1, 2) (100, 0); Create (1, 2) 3] in
+  let s := run {| live := [(0, (2, [1000]))]; dropped := []; root := Some 0 |} [Create (1, 2) 1; Drop (1, 2) (100, 0); Create (1, 2) 3] in
   lookup 1 (live s) = Some (2, [3]) /\ dget (1, 2) (dropped s) = Some [1] /\ lookup 100 (live s) = None.
 Proof. vm_compute. repeat split. Qed.
